@@ -49,7 +49,9 @@ class MethodDescriptor(metaclass=ABCMeta):
 
     def __get__(self, instance: Any, spec_cls: Type = None) -> Callable:
         if self.dissolve:
-            setattr(spec_cls, self.name, self.method)
+            # Replace this descriptor on the class it was attached to (which is
+            # not necessarily the class through which it is being accessed).
+            setattr(self.spec_cls or spec_cls, self.name, self.method)
         if instance is not None:
             return types.MethodType(self.method, instance)
         return self.method
